@@ -18,7 +18,13 @@
 //	CC                 client closes its connection
 //	SC                 server half-closes (TLS close_notify + FIN) and keeps reading
 //	SR                 server resets the TCP connection (SO_LINGER 0)
-//	WFC                writes toward the client start failing (reads still block)
+//	WFC                writes toward the client start failing (reads still block); a blocked write fails
+//	STC                the client stops reading: writes toward it block (until WFC / the caller's close)
+//	HC                 the proxy's reads from the client report EOF (client FIN), nothing else changes
+//	STS                the upstream stops reading (a TCP forwarder in front of the TLS server stops
+//	                   forwarding): writes toward it block once the socket buffers are full
+//	FH                 the forwarder half-closes toward the proxy (the proxy reads EOF from upstream)
+//	FR                 the forwarder resets the proxy's connection (a blocked write fails)
 //	CE1 SE1            unknown frame type (processFrame error) from client / server
 //	CE2 SE2            malformed PING (ReadFrame error)
 //	CE3 SE3            HEADERS with an undecodable HPACK block
@@ -70,18 +76,108 @@ import (
 
 // ---------------------------------------------------------------- endpoints
 
+// failConn is the proxy's end of the in-memory client connection with fault
+// injection: writes can be made to fail (WFC), to block as toward a peer that
+// has stopped reading (STC; a blocked write fails when WFC arrives or when the
+// proxy's caller closes the connection), and reads can report EOF while the
+// connection stays otherwise untouched (HC, and CC while stalled).
 type failConn struct {
 	net.Conn
 	failWrites atomic.Bool
+	stalled    atomic.Bool
+	readEOF    atomic.Bool
+	closed     atomic.Bool
 }
 
 var errInjected = errors.New("injected write failure")
 
 func (c *failConn) Write(b []byte) (int, error) {
+	for c.stalled.Load() && !c.failWrites.Load() && !c.closed.Load() {
+		time.Sleep(2 * time.Millisecond)
+	}
 	if c.failWrites.Load() {
 		return 0, errInjected
 	}
+	if c.closed.Load() {
+		return 0, io.ErrClosedPipe
+	}
 	return c.Conn.Write(b)
+}
+
+func (c *failConn) Read(b []byte) (int, error) {
+	if c.readEOF.Load() {
+		return 0, io.EOF
+	}
+	n, err := c.Conn.Read(b)
+	if err != nil && c.readEOF.Load() {
+		return n, io.EOF
+	}
+	return n, err
+}
+
+// halfClose makes the proxy's (possibly pending) read from the client report EOF.
+func (c *failConn) halfClose() {
+	c.readEOF.Store(true)
+	c.Conn.SetReadDeadline(time.Now())
+}
+
+func (c *failConn) Close() error {
+	c.closed.Store(true)
+	return c.Conn.Close()
+}
+
+// forwarder sits between the proxy and the TLS server in the scenarios that
+// need an upstream that stops reading (STS): plain TCP both ways, so TLS goes
+// through untouched.  Stalled: it stops reading from the proxy; the proxy's
+// writes block once the socket buffers are full.
+type forwarder struct {
+	lis     net.Listener
+	stalled atomic.Bool
+	pconn   atomic.Value // *net.TCPConn: the proxy's connection
+}
+
+func newForwarder(target string) (*forwarder, error) {
+	l, err := net.Listen("tcp", "127.0.0.1:0")
+	if err != nil {
+		return nil, err
+	}
+	f := &forwarder{lis: l}
+	go func() {
+		pc, err := l.Accept()
+		if err != nil {
+			return
+		}
+		p := pc.(*net.TCPConn)
+		p.SetReadBuffer(4096)
+		f.pconn.Store(p)
+		sc, err := net.Dial("tcp", target)
+		if err != nil {
+			p.Close()
+			return
+		}
+		srv := sc.(*net.TCPConn)
+		go func() { // server -> proxy
+			io.Copy(p, srv)
+			p.CloseWrite()
+		}()
+		buf := make([]byte, 32<<10)
+		for { // proxy -> server, gated
+			for f.stalled.Load() {
+				time.Sleep(2 * time.Millisecond)
+			}
+			n, err := p.Read(buf)
+			if n > 0 {
+				if _, werr := srv.Write(buf[:n]); werr != nil {
+					return
+				}
+			}
+			if err != nil {
+				srv.CloseWrite()
+				return
+			}
+		}
+	}()
+	return f, nil
 }
 
 type endpoint struct {
@@ -151,6 +247,7 @@ type session struct {
 	activity int64
 
 	lis     net.Listener
+	fwd     *forwarder   // only in scripts with STS
 	tcp     atomic.Value // *net.TCPConn accepted by the server
 	srv     *endpoint
 	srvUp   chan struct{}
@@ -167,7 +264,7 @@ type session struct {
 	panicked atomic.Bool
 }
 
-func newSession(T time.Duration) (*session, error) {
+func newSession(T time.Duration, withForwarder bool) (*session, error) {
 	s := &session{T: T, quiet: 40 * time.Millisecond, closing: make(chan bool), returned: make(chan struct{}), srvUp: make(chan struct{})}
 	cert, pool, err := selfSigned()
 	if err != nil {
@@ -211,7 +308,16 @@ func newSession(T time.Duration) (*session, error) {
 	s.cli = &endpoint{conn: a, activity: &s.activity}
 
 	cfg := &h2.Config{RootCAs: pool, AllowedHostsFilter: func(string) bool { return true }}
-	u, _ := url.Parse("https://" + inner.Addr().String())
+	target := inner.Addr().String()
+	if withForwarder {
+		f, err := newForwarder(target)
+		if err != nil {
+			return nil, err
+		}
+		s.fwd = f
+		target = f.lis.Addr().String()
+	}
+	u, _ := url.Parse("https://" + target)
 	go func() {
 		defer close(s.returned)
 		defer func() {
@@ -291,7 +397,7 @@ func atoi(s string) int { n, _ := strconv.Atoi(s); return n }
 func terminating(op string) bool {
 	for _, p := range strings.Split(op, "+") {
 		switch p {
-		case "CC", "SC", "SR", "CE1", "CE2", "CE3", "SE1", "SE2", "SE3", "CL", "badpre":
+		case "CC", "SC", "SR", "CE1", "CE2", "CE3", "SE1", "SE2", "SE3", "CL", "badpre", "HC", "FH", "FR":
 			return true
 		}
 	}
@@ -380,7 +486,36 @@ func (s *session) issue(op string) {
 			return fr.WriteHeaders(http2.HeadersFrameParam{StreamID: 9, BlockFragment: []byte{0xff, 0xff, 0xff, 0x7f}, EndHeaders: true})
 		})
 	case "CC":
-		s.cliRaw.Close()
+		if s.proxyEnd.stalled.Load() {
+			// the proxy's pending write toward the client must stay blocked: it would otherwise fail at once
+			// on the closed pipe.  The proxy sees the client's close as EOF on its reads.
+			s.proxyEnd.halfClose()
+		} else {
+			s.cliRaw.Close()
+		}
+	case "HC":
+		s.proxyEnd.halfClose()
+	case "STC":
+		s.proxyEnd.stalled.Store(true)
+	case "STS":
+		if s.fwd != nil {
+			s.waitServer()
+			s.fwd.stalled.Store(true)
+		}
+	case "FH":
+		if s.fwd != nil {
+			if p, ok := s.fwd.pconn.Load().(*net.TCPConn); ok {
+				p.CloseWrite()
+			}
+		}
+	case "FR":
+		if s.fwd != nil {
+			if p, ok := s.fwd.pconn.Load().(*net.TCPConn); ok {
+				s.srvSelf = true
+				p.SetLinger(0)
+				p.Close()
+			}
+		}
 	case "SC":
 		if srv := s.side('s'); srv != nil {
 			srv.mu.Lock()
@@ -476,18 +611,27 @@ func h2Goroutines() (string, string) {
 // ---------------------------------------------------------------- one scenario (child)
 
 func runScenario(in []string, T time.Duration) []string {
-	s, err := newSession(T)
+	withFwd := false
+	for _, op := range in {
+		if strings.Contains(op, "STS") {
+			withFwd = true
+		}
+	}
+	s, err := newSession(T, withFwd)
 	if err != nil {
 		return []string{"setup-failed"}
 	}
 	defer s.lis.Close()
+	if s.fwd != nil {
+		defer s.fwd.lis.Close()
+	}
 	var ret strings.Builder
 	armed := false
 	for _, op := range in {
 		for _, p := range strings.Split(op, "+") {
 			s.issue(p)
 		}
-		if terminating(op) || strings.Contains(op, "WFC") {
+		if terminating(op) || strings.Contains(op, "WFC") || strings.Contains(op, "ST") {
 			armed = true
 		}
 		if armed {
@@ -507,7 +651,7 @@ func runScenario(in []string, T time.Duration) []string {
 	g := ""
 	if fin {
 		// like martian.Proxy's connection loop: the caller closes the client connection after Proxy returns
-		s.proxyEnd.Conn.Close()
+		s.proxyEnd.Close()
 		deadline := time.Now().Add(T / 2)
 		for {
 			g, _ = h2Goroutines()
